@@ -280,6 +280,15 @@ pub fn c09_paragraphs(c: &TextCase) -> Outcome {
     if filled != lines.join(le) {
         return Err(format!("fill {:?} is not wrap's lines {:?} joined by the line ending", filled, lines));
     }
+    // options passed by reference behave like options passed by value
+    let opt = o.options();
+    let by_ref = wrap(&c.text, &opt);
+    if by_ref != lines {
+        return Err(format!("wrap(text, &options) = {:?} differs from wrap(text, options) = {:?}", by_ref, lines));
+    }
+    if fill(&c.text, &opt) != filled {
+        return Err(format!("fill(text, &options) = {:?} differs from fill(text, options) = {:?}", fill(&c.text, &opt), filled));
+    }
     let mut nontrivial = false;
     // split at each paragraph break: text = a + E + b
     let mut off = 0;
